@@ -162,6 +162,15 @@ const attacker = p2p.PeerID("12D3KooWverifattacker")
 // run one entry point on one payload
 func (e *netEnv) run(f string, d []byte, gen string) nRec {
 	rec := nRec{K: "n", F: f, D: hex.EncodeToString(d), Gen: gen}
+	if hung[f] { // a call of this entry point timed out: its goroutine (possibly holding locks) cannot be killed
+		rec.St, rec.Res = 4, "skipped-after-timeout"
+		return rec
+	}
+	defer func() {
+		if rec.St == 3 {
+			hung[f] = true
+		}
+	}()
 	st, msg := cx.Guard(func() {
 		n := e.node
 		switch f {
@@ -424,6 +433,50 @@ func genNet(o *hx.Out, rng *hx.Rng, scale int) {
 
 	// ---- transactions
 	family(rng, tx.Encode(), 40*scale, put("transactionValidator"))
+	// decodable but non-canonical forms of a statically valid transaction: each field removed, an unknown trailing field,
+	// non-shortest varints, a widened key, fields out of order, a duplicated field.  Whatever the validator accepts is handed
+	// to the announcement handler with the same bytes, as the network layer does.
+	for _, base := range []*blockchain.Transaction{tx, {Module: "token", Command: "transfer", Nonce: 0, Fee: 0, SenderPublicKey: sized(32, 1),
+		Params: []byte{}, Signatures: []codec.Hex{sized(64, 2)}}} {
+		enc := base.Encode()
+		fields := tlvSplit(enc)
+		for i := range fields {
+			without := []byte{}
+			for j, f := range fields {
+				if j != i {
+					without = append(without, f...)
+				}
+			}
+			put("transactionValidator")(without, "field-removed")
+			dup := append(append([]byte{}, enc...), fields[i]...)
+			put("transactionValidator")(dup, "field-duplicated")
+			if i+1 < len(fields) {
+				sw := [][]byte{}
+				sw = append(sw, fields...)
+				sw[i], sw[i+1] = sw[i+1], sw[i]
+				put("transactionValidator")(bytes.Join(sw, nil), "fields-swapped")
+			}
+		}
+		for _, tail := range [][]byte{{0x40, 0x01}, {0x42, 0x00}, {0x00}, {0x38, 0x00}, {0x3a, 0x00}} {
+			put("transactionValidator")(append(append([]byte{}, enc...), tail...), "trailing-field")
+		}
+		// nonce (field 3) and fee (field 4) as padded varints, params length padded
+		padded := []byte{}
+		for _, f := range fields {
+			if f[0] == 0x18 || f[0] == 0x20 {
+				v := append([]byte{}, f[1:]...)
+				v[len(v)-1] |= 0x80
+				v = append(v, 0x00)
+				padded = append(append(padded, f[0]), v...)
+			} else {
+				padded = append(padded, f...)
+			}
+		}
+		put("transactionValidator")(padded, "padded-varint")
+		for _, m := range cxs.KeyAttacks(enc) {
+			put("transactionValidator")(m, "widekey")
+		}
+	}
 	for _, kl := range []int{0, 31, 33} {
 		for _, sl := range []int{0, 63, 65} {
 			t := &blockchain.Transaction{Module: "token", Command: "transfer", Nonce: 1, Fee: 1, SenderPublicKey: sized(kl, 1), Params: []byte{}, Signatures: []codec.Hex{sized(sl, 2)}}
@@ -453,6 +506,17 @@ func genNet(o *hx.Out, rng *hx.Rng, scale int) {
 		put("sync.getHighestCommonBlock")((&csync.GetHighestCommonBlockRequest{IDs: [][]byte{ids[0], sized(l, 1)}}).Encode(), "id-size")
 		put("sync.getBlocksFromID")((&csync.GetBlocksFromIDRequest{ID: sized(l, 1)}).Encode(), "id-size")
 	}
+	// repeated known ids, mixes of repeated known / unknown ids
+	known, other, unk := n.HeaderAt(2).ID, n.HeaderAt(4).ID, sized(32, 0xee)
+	for _, list := range [][][]byte{{known, known}, {known, known, known}, {known, other, known, other}, {unk, unk}, {known, unk, known},
+		{unk, known, known, unk, unk}, {known, known, other, other, other, unk}} {
+		put("sync.getHighestCommonBlock")((&csync.GetHighestCommonBlockRequest{IDs: list}).Encode(), "repeated-ids")
+	}
+	rep := [][]byte{}
+	for i := 0; i < 500; i++ {
+		rep = append(rep, known)
+	}
+	put("sync.getHighestCommonBlock")((&csync.GetHighestCommonBlockRequest{IDs: rep}).Encode(), "repeated-ids")
 	long := [][]byte{}
 	for i := 0; i < 3000; i++ {
 		long = append(long, sized(32, byte(i)))
@@ -587,4 +651,48 @@ func replayMem(r mRec) mRec {
 	})
 	r.Alloc, r.St, r.Panic = alloc, st, msg
 	return r
+}
+
+// tlvSplit cuts a flat encoding into its top-level (key, value) fields.
+func tlvSplit(d []byte) [][]byte {
+	var out [][]byte
+	i := 0
+	for i < len(d) {
+		start := i
+		_, ks := uvarN(d[i:])
+		if ks <= 0 {
+			break
+		}
+		wt := d[i] & 7
+		i += ks
+		v, vs := uvarN(d[i:])
+		if vs <= 0 {
+			break
+		}
+		i += vs
+		if wt == 2 {
+			i += int(v)
+		}
+		if i > len(d) {
+			break
+		}
+		out = append(out, d[start:i])
+	}
+	return out
+}
+
+func uvarN(b []byte) (uint64, int) {
+	var x uint64
+	var s uint
+	for i, c := range b {
+		if i == 10 {
+			return 0, -1
+		}
+		if c < 0x80 {
+			return x | uint64(c)<<s, i + 1
+		}
+		x |= uint64(c&0x7f) << s
+		s += 7
+	}
+	return 0, 0
 }
